@@ -521,7 +521,10 @@ def check_eig_contract(case):
     n = a['len'] - 1
     rows, shifts, ev = companion_eigs(a)
     es = elems(a)
+    pm = mask_bits(a['mask'], a['shape'])
     for i in range(len(ev)):
+        if pm[i]:
+            continue                        # masked polynomial: what is handed to LAPACK there is not observable
         monic = np.concatenate(([1.0], -rows[i]))
         for z in ev[i]:
             scale = float(np.polyval(np.abs(monic), abs(z)))
